@@ -347,6 +347,24 @@ func ParseContracts(dir, pkgPath string) (*PkgContracts, error) {
 			}
 			pc.ChanInvs = append(pc.ChanInvs, &ChanInv{Elem: strings.TrimSpace(rest[:i]), Clause: c, PkgPath: pkgPath})
 			cur = nil
+		case "assert":
+			// assert <anchor>: <expr>   anchor = send | call <substr> | lock <field> | unlock <field>
+			if cur == nil {
+				return nil, fmt.Errorf("%s:%d: assert outside func", file, l.no)
+			}
+			i := strings.Index(rest, ":")
+			if i < 0 {
+				return nil, fmt.Errorf("%s:%d: assert <anchor>: <expr>", file, l.no)
+			}
+			c, err := mkClause(kw, props, strings.TrimSpace(rest[i+1:]), l.no)
+			if err != nil {
+				return nil, err
+			}
+			if len(c.Props) == 0 {
+				c.Props = cur.Props
+			}
+			anchor := strings.Join(strings.Fields(rest[:i]), " ")
+			cur.Asserts[anchor] = append(cur.Asserts[anchor], c)
 		case "makechan":
 			// makechan N assume P(ch)
 			if cur == nil {
